@@ -84,8 +84,11 @@ def vaddScaled : Vec α → Vec α → α → Vec α
   | r :: rs, s :: ss, c => (r + s * c) :: vaddScaled rs ss c
   | _, _, _ => []
 
-/-- `a.lpNorm<Eigen::Infinity>()` = `a.cwiseAbs().maxCoeff()` -/
-def infNorm (a : Vec α) : α := a.foldl (fun m v => cmax m (absv v)) 0
+/-- `a.lpNorm<Eigen::Infinity>()` = `a.cwiseAbs().maxCoeff()`. The third branch is unreachable in a linear order; at `Float`
+    it is taken exactly when a NaN is involved and makes the result NaN (Eigen leaves the NaN behaviour of `maxCoeff`
+    unspecified; the runs of the harness show a NaN result — `gradient_test() < epsilon` is false — whenever an entry is NaN) -/
+def infNorm (a : Vec α) : α :=
+  a.foldl (fun m v => let w := absv v; if m < w then w else if w ≤ m then m else m + w) 0
 
 /-- `a.squaredNorm()` -/
 def sqNorm (a : Vec α) : α := vdot a a
@@ -448,38 +451,58 @@ def valueTest (env : Env α) (patience : Nat) (b : BState α) : α :=
 
 /-- what one iteration of a non-monotonic solver hands to the shared plumbing: the triples given to `update_if_better`
     (in order), `iter_ok`, the `converged` flag when it is not `value_test(patience) < epsilon` (`none` = it is), and the
-    function's counters when `done` is called -/
+    function's counters when `done` is called, and the function's counters when the loop guard is evaluated next (bundle
+    solvers evaluate the function after `done`: there the two differ) -/
 structure NmStep (α : Type) where
   cands : List (Vec α × Vec α × α)
   iterOk : Bool
   conv : Option Bool
   fcalls : Nat
   gcalls : Nat
+  guardF : Nat
+  guardG : Nat
 
-def applyCands (env : Env α) (b : BState α) (cands : List (Vec α × Vec α × α)) : BState α :=
-  cands.foldl (fun b c => (updateIfBetter env b c.1 c.2.1 c.2.2).1) b
+/-- the candidates of one iteration, in order; also returns the best value before each call (most recent call first) -/
+def applyCands (env : Env α) (b : BState α) (cands : List (Vec α × Vec α × α)) : BState α × List α :=
+  cands.foldl (fun acc c => ((updateIfBetter env acc.1 c.1 c.2.1 c.2.2).1, acc.1.st.fx :: acc.2)) (b, [])
+
+/-- what one iteration leaves behind: the state, whether `done` said stop, and for the record the best values seen by the
+    `update_if_better` calls (in call order) and the `converged` flag handed to `done` -/
+structure NmOut (α : Type) where
+  b : BState α
+  stop : Bool
+  bests : List α
+  conv : Bool
+  guardF : Nat
+  guardG : Nat
 
 /-- one iteration: candidates, counters (`update_calls`), convergence flag, `done` -/
-def nmIter (env : Env α) (patience : Nat) (eps : α) (b : BState α) (r : NmStep α) : BState α × Bool :=
-  let b1 := applyCands env b r.cands
+def nmIter (env : Env α) (patience : Nat) (eps : α) (b : BState α) (r : NmStep α) : NmOut α :=
+  let ac := applyCands env b r.cands
+  let b1 := ac.1
   let u := updateCalls r.fcalls r.gcalls
   let s1 : State α := { b1.st with fcalls := u.1, gcalls := u.2 }
   let conv := match r.conv with
     | some c => c
     | none => decide (valueTest env patience b1 < eps)
   let d := done env s1 r.iterOk conv
-  (⟨d.1, b1.hist⟩, d.2)
+  ⟨⟨d.1, b1.hist⟩, d.2, ac.2.reverse, conv, r.guardF, r.guardG⟩
 
-/-- the generic loop `while (fcalls + gcalls < max_evals) { step; update_if_better…; if (done(state, iter_ok, converged)) break; }`
-    with the step as an oracle -/
-def nmLoop (env : Env α) (step : Nat → BState α → NmStep α) (patience : Nat) (eps : α) (maxEvals : Nat) :
-    Nat → Nat → BState α → BState α
-  | 0, _, b => b
-  | fuel + 1, k, b =>
-    if gdGuard b.st.fcalls b.st.gcalls maxEvals then
-      let r := nmIter env patience eps b (step k b)
-      if r.2 then r.1 else nmLoop env step patience eps maxEvals fuel (k + 1) r.1
-    else b
+/-- the generic loop `while (function.fcalls() + function.gcalls() < max_evals) { step; update_if_better…; if (done(state,
+    iter_ok, converged)) break; … }` with the step as an oracle (it is told the iteration number, the function's counters `gf`, `gg` at the guard and the state). Returns
+    the final state and the per-iteration records (oldest first). The guard is the generated guard of gd.cpp (every
+    `do_minimize` has the same one) -/
+def nmLoop (env : Env α) (step : Nat → Nat × Nat → BState α → NmStep α) (patience : Nat) (eps : α) (maxEvals : Nat) :
+    Nat → Nat → Nat → Nat → BState α → BState α × List (NmOut α)
+  | 0, _, _, _, b => (b, [])
+  | fuel + 1, k, gf, gg, b =>
+    if gdGuard gf gg maxEvals then
+      let r := nmIter env patience eps b (step k (gf, gg) b)
+      if r.stop then (r.b, [r])
+      else
+        let o := nmLoop env step patience eps maxEvals fuel (k + 1) r.guardF r.guardG r.b
+        (o.1, r :: o.2)
+    else (b, [])
 
 end
 end NanoVerif.Solver
